@@ -221,11 +221,13 @@ pub fn c10(tier: Tier) -> i32 {
                 // RefRecord::write / write_wrap: the record parsed from the sequence laid out with every line splitting
                 let comps: u32 = if n == 0 { 1 } else { 1 << (n - 1) };
                 for mask in 0..comps {
-                    for crlf in [false, true] {
-                        let nl: &[u8] = if crlf { b"\r\n" } else { b"\n" };
+                    // line endings: LF, CRLF, and the two mixtures (header one way, sequence lines the other)
+                    for (head_crlf, lines_crlf) in [(false, false), (true, true), (false, true), (true, false)] {
+                        let hnl: &[u8] = if head_crlf { b"\r\n" } else { b"\n" };
+                        let nl: &[u8] = if lines_crlf { b"\r\n" } else { b"\n" };
                         let mut input: Vec<u8> = b">".to_vec();
                         input.extend_from_slice(head);
-                        input.extend_from_slice(nl);
+                        input.extend_from_slice(hnl);
                         for i in 0..n {
                             input.push(seq[i]);
                             if i + 1 == n || (mask >> i) & 1 == 1 {
@@ -465,7 +467,7 @@ pub fn c10(tier: Tier) -> i32 {
         Report {
             property: "C10".into(),
             tier: tier.name().into(),
-            rule: format!("sequences = first n positional letters, n = 0..{}; every wrap width 1..n+2; {} headers (fixed menu: empty, spaces leading/trailing/multiple, '>' inside, non-UTF-8, CR inside / leading; plus ALL headers of <= 3 bytes over {{space, TAB, CR, letter, non-UTF-8 byte, '>', '@', '+'}} not ending in CR); entry points write_to, write_parts, write_wrap, write_head, write_id_desc, write_seq, write_wrap_seq, write_seq_iter, write_wrap_seq_iter, OwnedRecord::{{write,write_wrap}}, RefRecord::{{write,write_wrap}} (RefRecord parsed from every line splitting of the sequence, LF and CRLF); ALL 2^(n-1) compositions of the sequence into chunks, each also with 1-2 empty chunks inserted at every position; oracle: output parses back (reference parser and real reader) to (header, sequence), 2-3 records back to back parse to the list, wrapped lines <= width and all but the last = width, chunked output = whole output byte for byte (n >= 1); every call repeated into a writer that accepts only 1 or 3 bytes per write(): same bytes; widths usize::MAX, usize::MAX-1, usize::MAX/2+1, 2^63, 2^32+1 through every width-taking entry point (one line, no overflow); PLUS long sequences (lengths 255, 256, 257, 300, 513, 700, 4097, 8193, 20011; thorough up to 140 003) with a menu of cut points at and around 64/256/512/4096/8192 (all 2- and 3-part splits over the menu, an empty chunk, regular lines of 60/70/80/256) and widths 1, 60, 70, 255-257, n-1..n+1: write_seq_iter / write_wrap_seq_iter = whole-sequence output, RefRecord::write of the record parsed from input with these line lengths (LF/CRLF, from next() and from a record set) parses back", maxn, heads_v.len()),
+            rule: format!("sequences = first n positional letters, n = 0..{}; every wrap width 1..n+2; {} headers (fixed menu: empty, spaces leading/trailing/multiple, '>' inside, non-UTF-8, CR inside / leading; plus ALL headers of <= 3 bytes over {{space, TAB, CR, letter, non-UTF-8 byte, '>', '@', '+'}} not ending in CR); entry points write_to, write_parts, write_wrap, write_head, write_id_desc, write_seq, write_wrap_seq, write_seq_iter, write_wrap_seq_iter, OwnedRecord::{{write,write_wrap}}, RefRecord::{{write,write_wrap}} (RefRecord parsed from every line splitting of the sequence; LF, CRLF, and header / sequence lines with different endings); ALL 2^(n-1) compositions of the sequence into chunks, each also with 1-2 empty chunks inserted at every position; oracle: output parses back (reference parser and real reader) to (header, sequence), 2-3 records back to back parse to the list, wrapped lines <= width and all but the last = width, chunked output = whole output byte for byte (n >= 1); every call repeated into a writer that accepts only 1 or 3 bytes per write(): same bytes; widths usize::MAX, usize::MAX-1, usize::MAX/2+1, 2^63, 2^32+1 through every width-taking entry point (one line, no overflow); PLUS long sequences (lengths 255, 256, 257, 300, 513, 700, 4097, 8193, 20011; thorough up to 140 003) with a menu of cut points at and around 64/256/512/4096/8192 (all 2- and 3-part splits over the menu, an empty chunk, regular lines of 60/70/80/256) and widths 1, 60, 70, 255-257, n-1..n+1: write_seq_iter / write_wrap_seq_iter = whole-sequence output, RefRecord::write of the record parsed from input with these line lengths (LF/CRLF, from next() and from a record set) parses back", maxn, heads_v.len()),
             exhaustive: true,
             assumptions: vec!["sequence bytes are positional letters, plus a menu of 10 sequences of special bytes (blank, TAB, form feed, NUL, 0xff) through every entry point".into()],
             extra: json!({"states_note": "states = (sequence length, width, header, entry point, chunking) cases; transitions = writer calls"}),
